@@ -2,7 +2,7 @@
 import sys, os
 sys.path.insert(0, os.path.dirname(os.path.dirname(os.path.abspath(__file__))))
 from aovc.check import run_check
-from contracts import turbstats
+from contracts import turbstats, ftscreen
 
 
 def build(chk):
@@ -11,6 +11,11 @@ def build(chk):
     turbstats.obligations(chk)
     chk.confirm_known("C08-sf-zero", "zero", {})
     chk.bounded_native("numerical agreement of the copies, D = 2(C(0)-C(r)), Kolmogorov limit, monotonicity, saturation, r0 scaling on a grid of separations", "consistency", "r/L0 from 1e-4 to 30, 3 (r0, L0) pairs, tolerance 5e-3", "")
+    # 'the power spectrum used for screens' clause: the spectrum inside ft_phase_screen is the modified von Karman one (C07's contract, re-checked here)
+    with chk.borrow("C07"):
+        ftscreen.obligations(chk)
+        chk.bounded_native("the spectrum ft_phase_screen realises (exact ensemble covariance with unit draws) is the von Karman one, also over repeated calls", "spectrum",
+                           "N in {6, 8}, four (delta, r0, L0, l0) sets", "aotools/turbulence/phasescreen.py:ft_phase_screen")
     chk.not_decided.append("agreement with the Hankel transform of the phase power spectrum; Kolmogorov limit as L0 grows; monotonicity; positive semi-definiteness of covariance matrices (real analysis of Bessel functions): bounded native checks only")
 
 
